@@ -482,6 +482,56 @@ func isolationHarness(kindA, kindB string, withChange bool, bound int) harness {
 	}}
 }
 
+// sizedHarness (H6): two executions of the same kind on the same function object, with arguments of
+// different sizes / quantities, each on its own accounts: whatever the schedule, each must give
+// exactly what it gives alone (gas, effect on its account, emitted data). A scratch value kept on
+// the function object between two steps of one execution shows here.
+var sizedRef = map[string][2]bodies.ExecResult{}
+
+func sizedHarness(kind string, bound int) harness {
+	name := "H6:" + kind + "(usual)||" + kind + "(other sizes)"
+	return harness{name: name, bound: bound, build: func() ([]func(), func(*vsched.Result) (string, *violation)) {
+		ref, ok := sizedRef[kind]
+		if !ok {
+			// reference: each variant alone, on a fresh container (sequential; no scheduling points
+			// are contended, the scheduler lets the single thread run)
+			rl := bodies.NewLite()
+			ref = [2]bodies.ExecResult{bodies.ExecSized(rl, kind, false), bodies.ExecSized(rl, kind, true)}
+			sizedRef[kind] = ref
+		}
+		l := bodies.NewLite()
+		var ra, rb bodies.ExecResult
+		first := "" // which execution completed first (the threads run one at a time under the scheduler)
+		bs := []func(){
+			func() {
+				ra = bodies.ExecSized(l, kind, false)
+				if first == "" {
+					first = "usual"
+				}
+			},
+			func() {
+				rb = bodies.ExecSized(l, kind, true)
+				if first == "" {
+					first = "other"
+				}
+			},
+		}
+		return bs, func(r *vsched.Result) (string, *violation) {
+			for i, got := range []bodies.ExecResult{ra, rb} {
+				want := ref[i]
+				if got.OK != want.OK || got.Err != want.Err || got.Consumed != want.Consumed || got.Remaining != want.Remaining || got.Forwarded != want.Forwarded || got.Digest != want.Digest {
+					return "violation", &violation{"isolation", "sized:" + kind, fmt.Sprintf("%s (variant %d) overlapping another %s with other argument sizes gives ok=%v err=%q consumed=%d left=%d forwarded=%d, alone it gives ok=%v err=%q consumed=%d left=%d forwarded=%d (effects equal: %v)",
+						kind, i, kind, got.OK, got.Err, got.Consumed, got.Remaining, got.Forwarded, want.OK, want.Err, want.Consumed, want.Remaining, want.Forwarded, got.Digest == want.Digest)}
+				}
+			}
+			if !ra.OK || !rb.OK {
+				return "both-as-alone:refused:first=" + first, nil
+			}
+			return "both-as-alone:first=" + first, nil
+		}
+	}}
+}
+
 // ---------------------------------------------------------------------------------------------
 
 func runReplay(path string) int {
@@ -666,6 +716,10 @@ func allHarnesses(tier checks.Tier) []harness {
 	if thorough {
 		hs = append(hs, isolationHarness("ESDTNFTCreate", "ESDTNFTAddURI", true, 2), isolationHarness("ESDTNFTTransfer", "MultiESDTNFTTransfer", false, 3))
 	}
+	// H6: every kind against itself with other argument sizes, both successful
+	for _, k := range bodies.ExecKinds {
+		hs = append(hs, sizedHarness(k, 2))
+	}
 	return hs
 }
 
@@ -687,7 +741,7 @@ func main() {
 	if stage13 {
 		var only []harness
 		for _, h := range hs {
-			if harnessFamily(h.name) == "H5" {
+			if f := harnessFamily(h.name); f == "H5" || f == "H6" {
 				only = append(only, h)
 			}
 		}
